@@ -31,6 +31,7 @@ import (
 	gerrors "github.com/tochemey/goakt/v4/errors"
 	"github.com/tochemey/goakt/v4/extension"
 	"github.com/tochemey/goakt/v4/internal/commands"
+	"github.com/tochemey/goakt/v4/internal/verifhook"
 	"github.com/tochemey/goakt/v4/log"
 	"github.com/tochemey/goakt/v4/reentrancy"
 )
@@ -162,6 +163,7 @@ func (rctx *ReceiveContext) Response(resp any) {
 	if !rctx.responseClosed.CompareAndSwap(false, true) {
 		return
 	}
+	verifhook.At("resp.send", rctx, 0, 0)
 	select {
 	case rctx.response <- resp:
 	default:
@@ -788,8 +790,10 @@ func (rctx *ReceiveContext) build(ctx context.Context, from, to *PID, message an
 		return rctx
 	}
 
+	verifhook.At("ask.build", rctx, 0, 0)
 	rctx.responseClosed.Store(false)
 	rctx.ctx = ctx
+	verifhook.At("ask.getchan", rctx, 0, 0)
 	rctx.response = getResponseChannel()
 	return rctx
 }
